@@ -990,31 +990,11 @@ def _read_asn1_integer(
         header=header,
         hint=hint,
     )
-    b_int = bytearray(raw_int)
+    if not raw_int:
+        raise ValueError("Invalid ASN.1 INTEGER value: no content octets")
 
-    is_negative = b_int[0] & 0b10000000
-    if is_negative:
-        # Get the two's compliment.
-        for i in range(len(b_int)):
-            b_int[i] = 0xFF - b_int[i]
-
-        # Coverage is skipped because branch will not occur with no loop
-        for i in range(len(b_int) - 1, -1, -1):  # pragma: nocover
-            if b_int[i] == 0xFF:
-                b_int[i - 1] += 1
-                b_int[i] = 0
-                break
-
-            else:
-                b_int[i] += 1
-                break
-
-    int_value = 0
-    for val in b_int:
-        int_value = (int_value << 8) | val
-
-    if is_negative:
-        int_value *= -1
+    # The content octets are the big endian two's complement form of the value.
+    int_value = int.from_bytes(raw_int, byteorder="big", signed=True)
 
     return int_value, consumed
 
